@@ -445,3 +445,36 @@ def variant_call_paths(ctx, b, scrut_pred, adt_q, max_paths=64):
         walk(0, frozenset(), [])
         out[V] = paths
     return out
+
+
+def dest_walk_stores(san, dest_param=4, count_param=5):
+    """stores into the `dest` row of a shade_span: indexed (`dest[i] = v`) and the same walk written with an iterator
+    (`for d in dest[..count].iter_mut()` / `for d in &mut dest[..count]` { *d = v }).  Returns ([(place, value, point)],
+    iterator_form) — a walk over dest of any other shape is returned with value ('unknown',)"""
+    from terms import Deps
+    P4 = [('param', dest_param), ('deref', ('param', dest_param)), ('ref', ('deref', ('param', dest_param)))]
+    st = [(a2, v, pt) for a2, v, pt, kind in san.stores if kind == 'assign' and a2[0] == 'index' and strip_all(a2[1]) in P4]
+    n_index = len(st)
+    it_form = False
+    for a2, v, pt, kind in san.stores:
+        if kind != 'assign' or a2[0] != 'deref':
+            continue
+        root = a2[1]
+        if not (root[0] == 'field' and root[4] == 'Some' and is_call(root[1], 'Iterator::next')):
+            continue
+        D = Deps(san)
+        D.closure(root[1][2][0])
+        matched = len(st)
+        for x in D.visited:
+            if is_call(x, 'iter_mut', 'IntoIterator::into_iter') and len(x[2]) == 1:
+                sl = strip_all(x[2][0])
+                while sl[0] in ('deref', 'ref'):
+                    sl = strip_all(sl[1])
+                if is_call(sl, 'IndexMut::index_mut') and strip_all(sl[2][0]) in P4 and sl[2][1][0] == 'agg':
+                    f2 = dict(sl[2][1][4])
+                    if strip_all(f2.get('end', ('unknown',))) == ('param', count_param) and ('start' not in f2 or const_val(f2['start']) == 0):
+                        st.append((a2, v, pt))
+                        it_form = n_index == 0
+        if len(st) == matched and any(x in P4 for x in D.visited):
+            st.append((a2, ('unknown',), pt))
+    return st, it_form
